@@ -133,3 +133,13 @@ chk('C10', 'model_checking',
     'Abstract state = hash of private cache attributes (read only); exhaustive only over abstract states within the depth/state bound.',
     'history checker against a fresh-object model: bounded BFS with abstract-state deduplication + random histories + cache invariants at hooks + stream poisoning',
     'DESIGN.md section 4 C10')
+chk('C11', 'exploration',
+    'Differential (metamorphic) oracle: each payload - debug sections of corpus binaries read with my own section reader, gcc-compiled '
+    'shared objects and relocatable objects at DWARF 2-5, synthesized multi-unit sets with line/frame/aranges/pubnames tables - is '
+    're-emitted plain, SHF_COMPRESSED (4 zlib levels, both compression-header layouts), as legacy .zdebug (all or only shrunk sections '
+    'renamed), behind .gnu_debuglink (right/wrong CRC, file-name lengths of every residue mod 4), with .gnu_debugaltlink/.debug_sup links '
+    '(with and without loader, follow_links on/off) and by objcopy as a second producer; the complete dump of the resulting DWARF info '
+    'must be identical across containers, alt forms must resolve into the supplementary file, has_dwarf_info(strict) and the three '
+    'rejections are checked.',
+    'Containers keep class, byte order, machine and .eh_frame address; objcopy/gcc used when present (skipped otherwise).',
+    'differential oracle across container re-encodings (own writer + binutils as second producer)', 'DESIGN.md section 4 C11')
